@@ -244,6 +244,16 @@ def run_case(case, ctx):
         fail, labels = judge(r, full, v)
         if fail is not None:
             break
+    if fail is None and seed is None:
+        # replayed / boundary / fuzz texts also go through the verifier, like the fuzz target does
+        r = ctx.worker("dbg").run(text, mode=W.MODE_DUMP)
+        runs += 1
+        fail, _l = judge(r, text, "dbg compile only")
+        if fail is None and r.get("verify", {}).get("findings"):
+            first = r["verify"]["findings"][0]
+            fail = Failure("%s/verifier/%s" % (PROPERTY, first.split(" ", 1)[0]),
+                           "accepted text fails the bytecode verifier: %s\n--- text\n%s" % (first, text[:3000]),
+                           {"text": text})
     nontrivial = (text != seed) and ("rejected" in labels or "accepted" in labels)
     return Outcome(key=text, nontrivial=nontrivial, labels=labels, failure=fail, sample=short(text, 300), runs=runs)
 
@@ -294,8 +304,48 @@ def repl_sessions():
     return s
 
 
-def extra(tier, ctx):
+FUZZ = {}
+
+
+def fuzz_campaign(tier, ctx):
+    """libFuzzer campaign bounded by -runs; every artifact is replayed on the worker and becomes a case."""
+    from .. import fuzzing
     out = []
+    try:
+        fuzzing.build()
+    except Exception as e:  # build problems are infrastructure, not violations
+        FUZZ["error"] = str(e)[-800:]
+        return out
+    runs = 200000 if tier == "quick" else 8000000
+    r = fuzzing.run(runs, ctx.seed, max_total_time=120 if tier == "quick" else 3600)
+    FUZZ.update({"engine": "libFuzzer via cargo-fuzz, target harness/fuzz/fuzz_compile.rs", "executions": r["execs"],
+                 "coverage_edges": r["cov"], "wall_s": round(r["wall_s"], 1), "jobs": r["jobs"],
+                 "seed_corpus_files": r["seed_files"], "final_corpus_files": r["corpus_size"],
+                 "artifacts": [c["file"] for c in r["crashes"]],
+                 "oracles": "no panic / no hang in scanner+parser+resolver+compiler+peephole+encoder; accepted "
+                            "inputs must pass the bytecode verifier (C06 oracle inside the target)"})
+    for c in r["crashes"]:
+        text = c["data"].decode("utf-8", "replace")
+        if c["kind"] == "oom":
+            continue
+        o = run_case(("text", text), ctx)
+        if o.failure is None and c["kind"] in ("crash",):
+            o.failure = Failure("%s/fuzz/unreproduced-%s" % (PROPERTY, c["kind"]),
+                                "libFuzzer artifact %s did not reproduce on the worker\n--- text\n%s" %
+                                (c["file"], text[:2000]), {"text": text})
+        if o.failure is not None:
+            o.failure.info["case"] = enc(("text", text))
+        o.labels = list(o.labels) + ["fuzz-artifact"]
+        out.append(o)
+    return out
+
+
+def coverage_extra(tier):
+    return {"fuzz": dict(FUZZ)}
+
+
+def extra(tier, ctx):
+    out = fuzz_campaign(tier, ctx)
     for name, text in boundary_texts(tier):
         o = run_case(("text", text), ctx)
         o.labels = list(o.labels) + ["boundary"]
